@@ -68,8 +68,10 @@ def physical_records(payload, max_pr_len, rec_num=False, file_num=None, check=Fa
         yield by, len(chunk)
 
 
-def build_file(records, max_pr_len=65535, rec_num=False, file_num=None, check=False, tif=None, eof_markers=True):
+def build_file(records, max_pr_len=65535, rec_num=False, file_num=None, check=False, tif=None, eof_markers=True, pad_to=None):
     """records: list of logical record payloads (bytes).  tif: None | 'normal' (little-endian words) | 'reversed'.
+    pad_to: 2 | 4 - every physical record is followed by null bytes up to the next file position that is a multiple of it
+    (2.3.1.1: "a Physical Record may be padded with null characters"); a TIF marker's next word counts the padding.
     Returns (bytes, Layout)."""
     out = bytearray()
     lay = Layout()
@@ -81,11 +83,16 @@ def build_file(records, max_pr_len=65535, rec_num=False, file_num=None, check=Fa
         off = 0
         for pr, plen in physical_records(payload, max_pr_len, rec_num, file_num, check, counter):
             start = len(out)
+            npad = 0
+            if pad_to:
+                end = start + (TIF_LEN if tif else 0) + len(pr)
+                npad = (-end) % pad_to
             if tif:
-                out += struct.pack(fmt, 0, prev, start + TIF_LEN + len(pr))
+                out += struct.pack(fmt, 0, prev, start + TIF_LEN + len(pr) + npad)
                 prev = start
             hdr = len(out)
             out += pr
+            out += b'\x00' * npad
             info['prs'].append((start, hdr, len(pr), hdr + 4, plen))
             off += plen
         lay.records.append(info)
